@@ -51,6 +51,12 @@ def group(cid):
 
 with ThreadPoolExecutor(max_workers=jobs) as ex:
     res = [r for g in ex.map(group, sorted(groups)) for r in g]
+# properties that were not part of this run keep their recorded results (as long as the diff still exists)
+if os.path.exists(rp):
+    for r in json.load(open(rp)):
+        if r["property"] not in groups and os.path.exists(os.path.join(HERE, r["mutant"])):
+            res.append(r)
+res.sort(key=lambda r: (r["property"], r["mutant"]))
 json.dump(res, open(os.path.join(HERE, "mutants", "RESULTS.json"), "w"), indent=1)
 print("caught", sum(r["status"] == "caught" for r in res), "missed", sum(r["status"] == "missed" for r in res),
       "other", sum(r["status"] not in ("caught", "missed") for r in res))
